@@ -1,6 +1,6 @@
 """C18 - reproducible builds; options do not change meaning"""
 import os, subprocess, sys, hashlib
-import suites, hidlib, gen
+import suites, hidlib, gen, frontend
 from props.common import TRUSTED_BASE, ASSUMPTIONS as _A
 
 ID = 'C18'
@@ -10,7 +10,7 @@ TRUSTED = TRUSTED_BASE
 ASSUMPTIONS = _A + ['RUNTIME BEHAVIOUR NOT MODELLED: that the hidc process is a function of (source, options) is observed by compiling in '
                     'fresh interpreters under different PYTHONHASHSEED values, not proved',
                     'behaviour across stack sizes and word sizes is validated on generated programs, not proved']
-RULE = ('(a) each program compiled in 3 fresh interpreter processes with different hash seeds: byte-identical output; (b) programs that '
+RULE = ('(a) each program compiled in 6 fresh interpreter processes with different hash seeds: byte-identical output; (b) programs that '
         'win at stack size S behave identically at S+1, S+7, 4S; outputs at different -s differ only in the .zero directive; (c) programs '
         'whose reference behaviour is the same at w and w\' behave the same compiled for both; (d) --lint either rejects or leaves the '
         'output byte-identical; non-trivial = program for which all comparisons were made and agree')
@@ -25,7 +25,7 @@ for cfg, src in srcs:
         lines = hidlib.compile_src(src, **cfg)
         print(hashlib.sha256(b"\n".join(lines)).hexdigest())
     except Exception as e:
-        print("ERR " + type(e).__name__)
+        print("ERR " + type(e).__name__ + " " + hashlib.sha256(str(e).encode()).hexdigest()[:16])
 '''
 
 
@@ -43,18 +43,27 @@ def run(ctx):
     for src, _ in progs:
         for cfg in (dict(w=2, s=500), dict(w=4, s=64, unchecked=True)):
             items.append((cfg, src))
-    outs = []
-    for hs in ('0', '1', '12345'):
+    # front-end corpus: hash-dependent iteration over sets/dicts of types, names or overloads would show here
+    from props import C07
+    fe = list(C07.array_mix_programs(ctx.rng, True).values()) + list(frontend.test_snippets())
+    if ctx.quick: fe = ctx.rng.sample(fe, min(len(fe), 450))
+    for src in fe: items.append((dict(w=2, s=100), src))
+    seeds = ('0', '1', '2', '3', '12345', '987654321')
+    procs = []
+    for hs in seeds:
         env = dict(os.environ, PYTHONHASHSEED=hs)
-        p = subprocess.run(['/venv/bin/python', '-c', CHILD % os.path.join(hidlib.VERIF, 'harness')], input=repr(items),
-                           capture_output=True, text=True, env=env, timeout=900)
-        outs.append(p.stdout.strip().split('\n'))
+        procs.append(subprocess.Popen(['/venv/bin/python', '-c', CHILD % os.path.join(hidlib.VERIF, 'harness')], stdin=subprocess.PIPE,
+                                      stdout=subprocess.PIPE, text=True, env=env))
+    outs = []
+    for p in procs:
+        so, _ = p.communicate(repr(items), timeout=900)
+        outs.append(so.strip().split('\n'))
     nondet = [i for i in range(len(items)) if len({o[i] if i < len(o) else None for o in outs}) != 1]
-    ctx.stats['determinism'] = dict(compilations=len(items), processes=3, nondeterministic=len(nondet))
+    ctx.stats['determinism'] = dict(compilations=len(items), processes=len(seeds), nondeterministic=len(nondet))
     for i in nondet[:2]:
         ctx.violations.append(dict(what='compiler output differs between interpreter processes / hash seeds', kind='NONDET',
                                    source=items[i][1], args=[], config=items[i][0]))
-    ctx.say('determinism: %d compilations x 3 processes, %d differ' % (len(items), len(nondet)))
+    ctx.say('determinism: %d compilations x 6 processes, %d differ' % (len(items), len(nondet)))
     # (b) stack size: textual difference only in .zero, and same behaviour above the minimum
     textual = 0
     jobs = []
